@@ -1447,6 +1447,15 @@ func (b *Body) freshNode(v ssa.Value, depth int) (bool, string) {
 				return true, fname(f) + " returns " + why
 			}
 		}
+		// a helper that wraps its []byte parameter without copying it: the node holds the bytes
+		// the caller hands in, so those have to be this call chain's own
+		if wi, ok := wrapsParamBytes(f); ok && wi < len(call.Call.Args) {
+			ok2, why := b.freshBytesVal(call.Call.Args[wi], 0)
+			if !ok2 {
+				return false, "node built by " + fname(f) + ", which keeps the bytes it is given, over bytes that are not fresh: " + why
+			}
+			return true, fname(f) + " keeps the bytes it is given; they are " + why
+		}
 		return false, fname(f) + " is not a node constructor (new struct holding its parameter)"
 	}
 	arg := call.Call.Args[pi]
@@ -1660,12 +1669,28 @@ func ruleSuccess(c *Ctx) {
 						sig string
 					}
 					seen := map[stateKey]bool{}
-					var walk func(bb *ssa.BasicBlock, excl map[ssa.Value]map[int64]bool) bool
-					walk = func(bb *ssa.BasicBlock, excl map[ssa.Value]map[int64]bool) bool {
+					// tag: what a boolean method that answered true has left in a tag field of its
+					// receiver (tryDoc true: which == eDoc), per receiver and field, until a later
+					// call is handed the receiver
+					type tagKey struct {
+						recv  ssa.Value
+						field string
+					}
+					var walk func(bb *ssa.BasicBlock, excl map[ssa.Value]map[int64]bool, tags map[tagKey]int64, seenLoads map[ssa.Value]int64) bool
+					walk = func(bb *ssa.BasicBlock, excl map[ssa.Value]map[int64]bool, tags map[tagKey]int64, seenLoads map[ssa.Value]int64) bool {
 						sig := ""
 						for v, m := range excl {
 							sig += fmt.Sprintf("%p:%d;", v, len(m))
 						}
+						var tsig []string
+						for tk, kv := range tags {
+							tsig = append(tsig, fmt.Sprintf("%p.%s=%d", tk.recv, tk.field, kv))
+						}
+						for lv, kv := range seenLoads {
+							tsig = append(tsig, fmt.Sprintf("%p=%d", lv, kv))
+						}
+						sort.Strings(tsig)
+						sig += strings.Join(tsig, ";")
 						sk := stateKey{bb, sig}
 						if seen[sk] {
 							return false
@@ -1678,9 +1703,82 @@ func ruleSuccess(c *Ctx) {
 							return true
 						}
 						last := bb.Instrs[len(bb.Instrs)-1]
+						// through the block: a call that is handed a receiver forgets its tags; a load
+						// of a tag field sees the tag as it is then
+						loaded := map[ssa.Value]int64{}
+						for lv, kv := range seenLoads {
+							loaded[lv] = kv
+						}
+						cur := tags
+						var condCall *ssa.Call
+						if iff, ok := last.(*ssa.If); ok {
+							c0, _ := stripNot(iff.Cond)
+							condCall, _ = c0.(*ssa.Call)
+						}
+						for _, in := range bb.Instrs {
+							switch x := in.(type) {
+							case *ssa.UnOp:
+								if base, fr, ok := fieldLoad(x); ok {
+									if kv, known := cur[tagKey{base, fr.Field}]; known {
+										loaded[x] = kv
+									}
+								}
+							case ssa.CallInstruction:
+								for _, a := range x.Common().Args {
+									for tk := range cur {
+										if tk.recv == a {
+											c2 := map[tagKey]int64{}
+											for k2, v2 := range cur {
+												if k2.recv != a {
+													c2[k2] = v2
+												}
+											}
+											cur = c2
+											break
+										}
+									}
+								}
+							case *ssa.Store:
+								if fa, ok := x.Addr.(*ssa.FieldAddr); ok {
+									tk := tagKey{fa.X, fieldOfAddr(fa).Field}
+									if _, known := cur[tk]; known {
+										c2 := map[tagKey]int64{}
+										for k2, v2 := range cur {
+											if k2 != tk {
+												c2[k2] = v2
+											}
+										}
+										cur = c2
+									}
+								}
+							}
+						}
 						for si, sblk := range bb.Succs {
 							ex2 := excl
+							tg2 := cur
 							if iff, ok := last.(*ssa.If); ok {
+								if condCall != nil && len(condCall.Call.Args) > 0 {
+									_, neg := stripNot(iff.Cond)
+									if (si == 0) != neg {
+										if field, kv, ok := b.setsTagWhenTrue(condCall.Call.StaticCallee()); ok {
+											tg2 = map[tagKey]int64{}
+											for k2, v2 := range cur {
+												tg2[k2] = v2
+											}
+											tg2[tagKey{condCall.Call.Args[0], field}] = kv
+										}
+									}
+								}
+								if bo, ok := iff.Cond.(*ssa.BinOp); ok && (bo.Op == token.EQL || bo.Op == token.NEQ) {
+									if kv, ok := intConst(bo.Y); ok {
+										if have, known := loaded[bo.X]; known {
+											eqEdge := (si == 0) == (bo.Op == token.EQL)
+											if eqEdge != (have == kv) {
+												continue // the tag left by the method that answered true says otherwise
+											}
+										}
+									}
+								}
 								if bo, ok := iff.Cond.(*ssa.BinOp); ok && bo.Op == token.EQL {
 									if kv, ok := intConst(bo.Y); ok {
 										if si == 1 { // not equal: exclude the constant for this tag value
@@ -1701,13 +1799,13 @@ func ruleSuccess(c *Ctx) {
 									}
 								}
 							}
-							if walk(sblk, ex2) {
+							if walk(sblk, ex2, tg2, loaded) {
 								return true
 							}
 						}
 						return false
 					}
-					if _, inEff := effect[r.Block()]; inEff || !walk(h.Blocks[0], map[ssa.Value]map[int64]bool{}) {
+					if _, inEff := effect[r.Block()]; inEff || !walk(h.Blocks[0], map[ssa.Value]map[int64]bool{}, map[tagKey]int64{}, map[ssa.Value]int64{}) {
 						var kinds []string
 						for _, v := range effect {
 							kinds = append(kinds, v)
@@ -2202,4 +2300,228 @@ func (b *Body) errorIsReturned(call *ssa.Call) (bool, string) {
 		return false, "no return is reachable from the handler call"
 	}
 	return true, fmt.Sprintf("the handler's error is the error result of %s on all %d return(s) reachable from the call", fname(fn), n)
+}
+
+// setsTagWhenTrue: f is a method with a bool result that answers true only after it has
+// stored one constant into one integer field of its receiver (tryDoc: which = eDoc), and that
+// hands its receiver to no other function: on the true edge of a call the field holds that
+// constant.
+func (b *Body) setsTagWhenTrue(f *ssa.Function) (field string, k int64, ok bool) {
+	if f == nil || len(f.Blocks) == 0 || f.Signature.Recv() == nil || len(f.Params) == 0 {
+		return "", 0, false
+	}
+	res := f.Signature.Results()
+	if res.Len() != 1 || !types.Identical(res.At(0).Type().Underlying(), types.Typ[types.Bool]) {
+		return "", 0, false
+	}
+	recv := f.Params[0]
+	var stores []*ssa.Store
+	clean := true
+	allInstrs(f, func(i ssa.Instruction) {
+		switch x := i.(type) {
+		case *ssa.Store:
+			if fa, isFA := x.Addr.(*ssa.FieldAddr); isFA && fa.X == ssa.Value(recv) {
+				if _, isK := intConst(x.Val); isK {
+					stores = append(stores, x)
+				}
+			}
+		case ssa.CallInstruction:
+			for _, a := range x.Common().Args {
+				if a == ssa.Value(recv) {
+					clean = false
+				}
+			}
+		}
+	})
+	if !clean || len(stores) != 1 {
+		return "", 0, false
+	}
+	st := stores[0]
+	fa := st.Addr.(*ssa.FieldAddr)
+	field = fieldOfAddr(fa).Field
+	// no other store to that field
+	other := false
+	allInstrs(f, func(i ssa.Instruction) {
+		if x, isS := i.(*ssa.Store); isS && x != st {
+			if fa2, isFA := x.Addr.(*ssa.FieldAddr); isFA && fa2.X == ssa.Value(recv) && fieldOfAddr(fa2).Field == field {
+				other = true
+			}
+		}
+	})
+	if other {
+		return "", 0, false
+	}
+	n := 0
+	for _, r := range liveReturns(f) {
+		v, isK := boolConst(retVal(r, 0))
+		if !isK {
+			return "", 0, false
+		}
+		if !v {
+			continue
+		}
+		n++
+		if !b.instrDominates(st, r) {
+			return "", 0, false
+		}
+	}
+	if n == 0 {
+		return "", 0, false
+	}
+	k, _ = intConst(st.Val)
+	return field, k, true
+}
+
+// wrapsParamBytes: f returns constructor(&local) where local only ever holds f's []byte
+// parameter (converted): the node's text is the parameter's memory. Returns the parameter index.
+func wrapsParamBytes(f *ssa.Function) (int, bool) {
+	if f == nil || len(f.Blocks) == 0 {
+		return 0, false
+	}
+	rets := returnsOf(f)
+	if len(rets) != 1 || len(rets[0].Results) != 1 {
+		return 0, false
+	}
+	call, ok := rets[0].Results[0].(*ssa.Call)
+	if !ok {
+		return 0, false
+	}
+	g := call.Call.StaticCallee()
+	if g == nil {
+		return 0, false
+	}
+	k, ok := constructorParam(g)
+	if !ok || k >= len(call.Call.Args) {
+		return 0, false
+	}
+	al, ok := call.Call.Args[k].(*ssa.Alloc)
+	if !ok {
+		return 0, false
+	}
+	idx, n := -1, 0
+	for _, r := range *al.Referrers() {
+		st, ok := r.(*ssa.Store)
+		if !ok || st.Addr != ssa.Value(al) {
+			continue
+		}
+		n++
+		p, ok := unwrapConv(st.Val).(*ssa.Parameter)
+		if !ok {
+			return 0, false
+		}
+		pi := paramIdx(p)
+		if idx >= 0 && idx != pi {
+			return 0, false
+		}
+		idx = pi
+	}
+	return idx, n > 0 && idx >= 0
+}
+
+// freshBytesVal: v is a byte slice allocated in this call chain and referred to by nothing
+// else: make, append to nil (or to such a slice), a conversion or reslice of one, or the result
+// of a repository function all of whose returns are such slices (or nil).
+func (b *Body) freshBytesVal(v ssa.Value, depth int) (bool, string) {
+	if depth > 4 {
+		return false, "too deep"
+	}
+	switch x := v.(type) {
+	case *ssa.MakeSlice:
+		return true, "a fresh make([]byte, …)"
+	case *ssa.Const:
+		if x.IsNil() {
+			return true, "nil"
+		}
+	case *ssa.Convert:
+		return b.freshBytesVal(x.X, depth)
+	case *ssa.ChangeType:
+		return b.freshBytesVal(x.X, depth)
+	case *ssa.Slice:
+		return b.freshBytesVal(x.X, depth)
+	case *ssa.Phi:
+		why := ""
+		for _, e := range x.Edges {
+			ok, w := b.freshBytesVal(e, depth+1)
+			if !ok {
+				return false, w
+			}
+			if w != "nil" {
+				why = w
+			}
+		}
+		return true, why
+	case *ssa.UnOp:
+		// a local that go/ssa keeps in memory (a function with defer): every store into it
+		// is fresh, and its address goes nowhere
+		al, ok := x.X.(*ssa.Alloc)
+		if !ok || x.Op != token.MUL {
+			break
+		}
+		why, n := "", 0
+		for _, r := range *al.Referrers() {
+			switch y := r.(type) {
+			case *ssa.Store:
+				if y.Addr != ssa.Value(al) {
+					return false, "the address of the local that holds the bytes is stored"
+				}
+				ok, w := b.freshBytesVal(y.Val, depth+1)
+				if !ok {
+					return false, w
+				}
+				n++
+				if w != "nil" {
+					why = w
+				}
+			case *ssa.UnOp, *ssa.DebugRef:
+			default:
+				return false, "the address of the local that holds the bytes is handed on"
+			}
+		}
+		if n > 0 && why != "" {
+			return true, why
+		}
+		return false, "a local that is never given fresh bytes"
+	case *ssa.Extract:
+		if call, ok := x.Tuple.(*ssa.Call); ok {
+			return b.freshResult(call, x.Index, depth)
+		}
+	case *ssa.Call:
+		if bi, ok := x.Call.Value.(*ssa.Builtin); ok && bi.Name() == "append" && len(x.Call.Args) > 0 {
+			if ok, w := b.freshBytesVal(x.Call.Args[0], depth+1); ok {
+				if w == "nil" {
+					return true, "append([]byte(nil), …), a new array"
+				}
+				return true, "append to " + w
+			}
+			return false, "append to a slice that is not this call's own"
+		}
+		return b.freshResult(x, 0, depth)
+	}
+	return false, describeValue(v) + " is not a fresh allocation"
+}
+
+func (b *Body) freshResult(call *ssa.Call, idx int, depth int) (bool, string) {
+	f := call.Call.StaticCallee()
+	if f == nil || !b.inRepo(f) || len(f.Blocks) == 0 {
+		return false, "result of a call that does not resolve to repository code"
+	}
+	why := ""
+	n := 0
+	for _, r := range liveReturns(f) {
+		if idx >= len(r.Results) {
+			return false, "no such result"
+		}
+		ok, w := b.freshBytesVal(r.Results[idx], depth+1)
+		if !ok {
+			return false, fname(f) + ": " + w
+		}
+		n++
+		if w != "nil" {
+			why = w
+		}
+	}
+	if n == 0 || why == "" {
+		return false, fname(f) + " never returns bytes"
+	}
+	return true, "the result of " + fname(f) + " (" + why + ")"
 }
